@@ -8,7 +8,7 @@ PROPS = ["C01", "C02", "C03", "C04", "C05", "C11", "C16", "C17"]
 
 def run(sid, budget):
     d = os.path.join(ROOT, "seeded", sid)
-    target = f"/dev/shm/rtverif-seeded-{sid}"
+    target = f"/dev/shm/rtcopy-seeded-{sid}"
     shutil.rmtree(target, ignore_errors=True)
     subprocess.run(["rsync", "-a", "--exclude", ".git", "--exclude", "__pycache__", "--exclude", "notebooks", "--exclude", "docs", "/repo/", target + "/"], check=True)
     try:
